@@ -198,3 +198,9 @@ Fixpoint digits_val_acc (s : string) (acc : N) : N :=
   | String a r => digits_val_acc r (acc * 10 + N.of_nat (nat_of_ascii a - 48))
   end.
 Definition digits_val (s : string) : N := digits_val_acc s 0.
+
+Lemma json_wf_obj_alt kv :
+  json_wf (JObj kv) = keys_nodup (map fst kv) &&
+  (fix go (kv : list (string * json)) : bool :=
+     match kv with [] => true | (_, v) :: r => json_wf v && go r end) kv.
+Proof. reflexivity. Qed.
